@@ -118,10 +118,11 @@ theorem replayOne_delete_eq (r : WalRec) (s : Store) (l : Leaf) (d : Bool)
   refine ⟨mem1, fun k => hsv k, ?_⟩
   have hop1 : (r.op == c_OpInsert) = false := by rw [hop]; decide
   have hop2 : (r.op == c_OpUpdate) = false := by rw [hop]; decide
+  have hop3 : (r.op == c_OpDelete) = true := by rw [hop]; decide
   unfold replayOne
   simp only [hop1, Bool.false_eq_true, if_false]
   rw [hf]
-  simp only [nodeLSN, hop2, hcell, delLeaf, bumpHdr, Bool.false_eq_true, if_false,
+  simp only [nodeLSN, hop2, hop3, hcell, delLeaf, bumpHdr, Bool.false_eq_true, if_false, if_true,
     Bool.not_true]
   split <;> rfl
 
